@@ -913,7 +913,9 @@ class Exec:
         if ck == "BitCast":
             v = self.rvalue(st, sub)
             if isinstance(v.v, Ptr) and t.kind == "ptr":
-                if v.v.region is not None and t.to.kind not in ("void",):
+                opaque = t.to.kind == "ptr" and t.to.to is not None and t.to.to.kind == "void" \
+                    and v.v.region is not None and v.v.region.elem is not None and v.v.region.elem.kind != "ptr"
+                if v.v.region is not None and t.to.kind not in ("void",) and not opaque:
                     self.type_region(v.v, t.to)
                     self.check_cast_compat(v.v, t.to)
                 return Val(t, v.v)
